@@ -280,10 +280,10 @@ def keep_failure(pid, failure):
         return path
     try:
         if path.endswith(".case"):
-            with open(path) as f:
+            with open(path, "rb") as f:
                 body = f.read()
-            with open(dst, "w") as f:
-                f.write("# driver %s\n" % stage.get("driver", "?"))
+            with open(dst, "wb") as f:
+                f.write(("# driver %s\n" % stage.get("driver", "?")).encode())
                 f.write(body)
         else:
             shutil.copyfile(path, dst)
